@@ -158,6 +158,17 @@ def ob_a(ob):
                     ob.sample({"known_region_witness_v": vv.tolist()})
     ob.require(validated, "no path matched the validation input")
     derivative_identity(ob)
+    if ob.tier == "thorough":
+        # cross-solver check of a sample of the queries (z3 -> SMT-LIB2 -> cvc5): disagreement means the encoding is suspect
+        n_x = 0
+        for pc, side, (R, dR) in res:
+            cs = unit + list(pc) + list(side) + [z3.Not(in_region), R[0, 1] != V[1]]
+            v_c = smt.cvc5_crosscheck(cs, 60)
+            v_z, _ = smt.check(cs, "a:cvc5 cross-check (z3 side)", "auto", 60)
+            ob.note("cross-solver: z3=%s cvc5=%s" % (v_z, v_c))
+            if v_c in ("sat", "unsat") and v_z in ("sat", "unsat") and v_c != v_z:
+                raise HarnessError("z3 and cvc5 disagree on a rotation query (%s vs %s)" % (v_z, v_c))
+            n_x += 1
     # sensitivity twin: a rotation whose first row is -v must be refuted on the unmasked path
     for pc, side, (R, dR) in res:
         S.ST.side[:] = side
